@@ -5,12 +5,20 @@ finishes.
     host (with registrations of a foreign container already present), real
     start slice, real finish slice, finish again; the rules dir, endpoints dir
     and ip-sets must be back to their state before the start.
-(b) mc.statex: BFS over {start A, start B, finish A, finish B} (a finish of a
-    finished or never started container is the "finish again" event) for
-    manifest pairs from a reduced menu: after finishing one container
-    everything the other registered is still there.
+(b) mc.statex: BFS over {start A, start B, aborted start A, aborted start B,
+    finish A, finish B} (a finish of a finished or never started container is
+    the "finish again" event; an aborted start fails at the last step of the
+    network set-up) for manifest pairs from a reduced menu: after finishing
+    one container everything the other registered is still there.
+(c) single-fault enumeration of the finish: every external step of the real
+    finish fails once, finish is repeated until it completes.
+(d) single-fault enumeration of the start: every external step of the real
+    _run.run fails once (the start is aborted wherever the code does not
+    swallow the failure), then the real finish, then finish again.
+start = the real _run.run, finish = the real _finish.finish (mc.c16_world).
 """
 import itertools
+import os
 import time
 
 from mc import boundx
@@ -103,7 +111,8 @@ def _exc(exc):
     import traceback
     return {'type': type(exc).__name__, 'msg': str(exc)[:200],
             'site': statex.impl_site(exc.__traceback__),
-            'tb': traceback.format_exc()[-600:]}
+            'tb': ''.join(traceback.format_exception(
+                type(exc), exc, exc.__traceback__))[-600:]}
 
 
 def run_single(manifest, order):
@@ -203,7 +212,7 @@ def _finish_until_done(host, manifest):
             host.finish(manifest)
             return True, aborted
         except Exception as exc:  # pylint: disable=broad-except
-            aborted.append(_exc(exc))
+            aborted.append(exc)     # formatted only when reported
     return False, aborted
 
 
@@ -232,19 +241,93 @@ def run_fault(manifest, order, k):
     if not done:
         viol.append(('finish-does-not-complete-after-failed-command',
                      '_finish._cleanup_network after ' + cmd,
-                     {'fault_point': k, 'attempts': aborted}))
+                     {'fault_point': k,
+                      'attempts': [_exc(e) for e in aborted]}))
     s2 = host.snapshot()
     for item in sorted(s2 - s0):
         viol.append(('finish-left-registration-behind-after-failed-command',
                      '_finish._cleanup_network:%s after %s'
                      % (W.kind_of(item), cmd),
                      {'left': item, 'fault_point': k, 'failed': cmd,
-                      'aborted_attempts': aborted,
+                      'aborted_attempts': [_exc(e) for e in aborted],
                       'attempts_until_completion': len(aborted) + 1}))
     for item in sorted(s0 - s2):
         viol.append(('finish-removed-registration-of-another-container',
                      '_finish._cleanup_network:' + W.kind_of(item),
                      {'removed': item, 'fault_point': k}))
+    return viol, facts
+
+
+def run_start_fault(manifest, order, k):
+    """Fresh host, real _run.run with its external step number k failing
+    once, then the real finish (no failure injected), then finish again.
+    Returns (violations, facts); k=None only counts the steps."""
+    host = W.Host(port_order=order)
+    s0 = host.snapshot()
+    W.FAULT.arm(k, 'start')
+    raised = None
+    try:
+        host.start(manifest)
+    except Exception as exc:  # pylint: disable=broad-except
+        raised = exc
+    fired = W.FAULT.fired
+    points = W.FAULT.n
+    kinds = list(W.FAULT.trace)
+    W.FAULT.arm(None)
+    if k is not None and fired is None:
+        raise statex.HarnessError('start fault point %r never reached (%r)'
+                                  % (k, manifest))
+    s1 = host.snapshot()
+    step = 'no failed step' if fired is None else 'failed %s %s' % (
+        fired[0], ' '.join(str(x) for x in fired[1])
+        if isinstance(fired[1], (list, tuple)) else fired[1])
+    facts = {'points': points, 'fired': fired, 'kinds': kinds,
+             'aborted': raised is not None,
+             'registered_at_abort': len(s1 - s0), 'step': step}
+    viol = []
+    for item in sorted(s0 - s1):
+        viol.append(('start-removed-existing-registration',
+                     '_run.run:' + W.kind_of(item),
+                     {'item': item, 'fault_point': k, 'failed': step}))
+    finish_raised = None
+    try:
+        host.finish(manifest)
+    except Exception as exc:  # pylint: disable=broad-except
+        finish_raised = exc
+    s2 = host.snapshot()
+    how = 'aborted start' if raised is not None else \
+        'start that survived a failed step'
+    for item in sorted(s2 - s0):
+        viol.append(('finish-left-registration-behind-after-%s'
+                     % how.replace(' ', '-'),
+                     '_run.run / _finish.finish:%s' % W.kind_of(item),
+                     {'left': item, 'fault_point': k, 'failed': step,
+                      'start_raised': raised and _exc(raised),
+                      'registered_by_the_start': sorted(s1 - s0),
+                      'state_json_written': os.path.exists(os.path.join(
+                          host.paths(manifest)[2], 'state.json')),
+                      'finish_raised': finish_raised and
+                      _exc(finish_raised)}))
+    for item in sorted(s0 - s2):
+        viol.append(('finish-removed-registration-of-another-container',
+                     '_finish._cleanup_network:' + W.kind_of(item),
+                     {'removed': item, 'fault_point': k, 'failed': step}))
+    # (a finish that raises is judged by what it leaves behind, above)
+    try:
+        host.finish(manifest)
+    except Exception as exc:  # pylint: disable=broad-except
+        if finish_raised is None:
+            viol.append(('repeated-finish-raised', '_finish.finish',
+                         dict(_exc(exc), fault_point=k, failed=step)))
+    s3 = host.snapshot()
+    if s3 != s2 and finish_raised is None:
+        item = sorted(s3 ^ s2)[0]
+        viol.append(('repeated-finish-changed-state',
+                     '_finish._cleanup_network:' + W.kind_of(item),
+                     {'changed': sorted(s3 ^ s2), 'fault_point': k,
+                      'failed': step}))
+    if host.bound != host.prebound:
+        raise statex.HarnessError('sockets leaked by the harness')
     return viol, facts
 
 
@@ -254,33 +337,64 @@ def fault_worker(chunk):
            'samples': [], 'counters': {}}
     cnt = out['counters']
     seen = {}
+
+    def note(part, manifest, k, v):
+        for clause, site, detail in v:
+            key = (clause, site)
+            if key not in seen:
+                seen[key] = {
+                    'clause': clause, 'site': site, 'detail': detail,
+                    'count': 0,
+                    'replay': {'part': part, 'manifest': manifest,
+                               'order': 'identity', 'fault': k}}
+            seen[key]['count'] += 1
+
+    def bump(key, n=1):
+        cnt[key] = cnt.get(key, 0) + n
+
     for manifest in fault_manifests(quick)[lo:hi]:
+        # (c) the finish with one failed step
         viol, facts = run_fault(manifest, 'identity', None)
         n = facts['points']
-        cnt['fault_manifests'] = cnt.get('fault_manifests', 0) + 1
-        cnt['fault_points'] = cnt.get('fault_points', 0) + n
-        runs = [(None, viol, facts)]
+        bump('fault_manifests')
+        bump('fault_points', n)
+        note('fault', manifest, None, viol)
         for k in range(n):
             v, f = run_fault(manifest, 'identity', k)
-            runs.append((k, v, f))
-            cnt['fault_runs'] = cnt.get('fault_runs', 0) + 1
-            cnt['fault_aborted_attempts'] = \
-                cnt.get('fault_aborted_attempts', 0) + f['aborted']
+            note('fault', manifest, k, v)
+            bump('fault_runs')
+            bump('fault_aborted_attempts', f['aborted'])
             if f['aborted'] == 0:
-                cnt['fault_swallowed_by_the_code'] = \
-                    cnt.get('fault_swallowed_by_the_code', 0) + 1
-            key = 'fault in %s' % (f['fired'][0],)
-            cnt[key] = cnt.get(key, 0) + 1
-        for k, v, _f in runs:
-            for clause, site, detail in v:
-                key = (clause, site)
-                if key not in seen:
-                    seen[key] = {
-                        'clause': clause, 'site': site, 'detail': detail,
-                        'count': 0,
-                        'replay': {'part': 'fault', 'manifest': manifest,
-                                   'order': 'identity', 'fault': k}}
-                seen[key]['count'] += 1
+                bump('fault_swallowed_by_the_code')
+            bump('fault in %s' % (f['fired'][0],))
+        # (d) the start with one failed step
+        viol, facts = run_start_fault(manifest, 'identity', None)
+        n = facts['points']
+        bump('sfault_points', n)
+        note('start-fault', manifest, None, viol)
+        for k in range(n):
+            v, f = run_start_fault(manifest, 'identity', k)
+            note('start-fault', manifest, k, v)
+            bump('sfault_runs')
+            bump('sfault in %s' % (f['fired'][0],))
+            if not f['aborted']:
+                bump('sfault_swallowed_by_the_code')
+                continue
+            bump('sfault_aborted_starts')
+            if f['registered_at_abort']:
+                bump('sfault_aborted_with_registrations')
+                if f['registered_at_abort'] == facts['registered_at_abort']:
+                    bump('sfault_aborted_with_all_registrations')
+                if lo == 0 and not out['samples'] and \
+                        f['registered_at_abort'] >= 2:
+                    out['samples'].append({
+                        'start_aborted_by': f['step'],
+                        'registrations_at_abort': f['registered_at_abort'],
+                        'steps_of_this_start': n,
+                        'endpoints': manifest['endpoints'],
+                        'ephemeral_ports': manifest['ephemeral_ports'],
+                        'passthrough': manifest['passthrough'],
+                        'vring': bool(manifest['vring'])})
     out['violations'] = list(seen.values())
     return out
 
@@ -359,6 +473,10 @@ def pair_configs(quick):
     return out
 
 
+def _is_newnet(kind, what):
+    return kind == 'subproc' and what[0] == 'newnet.create_newnet'
+
+
 class PairWorld:
     def __init__(self, cfg):
         self.cfg = cfg
@@ -376,6 +494,7 @@ class PairWorld:
                             **PAIR_MENU[cfg['B']]),
         }
         self.status = {'A': 'new', 'B': 'new'}
+        self.aborted = set()
         self.app = {}
         self.reg = {'A': frozenset(), 'B': frozenset()}
 
@@ -387,8 +506,13 @@ class PairWorld:
         kind, x = ev
         other = 'B' if x == 'A' else 'A'
         before = self.host.snapshot()
-        if kind == 'start':
+        if kind in ('start', 'abort'):
             assert self.status[x] == 'new'
+            if kind == 'abort':
+                # the last step of the network set-up fails: everything is
+                # registered, the start is aborted (process gone, sockets
+                # closed), the container waits for its finish
+                W.FAULT.arm(None, 'start', match=_is_newnet)
             try:
                 app = self.host.start(self.man[x])
             except Exception as exc:  # pylint: disable=broad-except
@@ -397,11 +521,20 @@ class PairWorld:
                 app = None
                 self.stats['start_raised'] += 1
                 self.last_start_exc = _exc(exc)
+            finally:
+                fired = W.FAULT.fired
+                W.FAULT.arm(None)
             after = self.host.snapshot()
             self.app[x] = app
             self.reg[x] = after - before
             self.status[x] = 'run'
             self.stats['starts'] += 1
+            if kind == 'abort' and app is None:
+                self.aborted.add(x)
+                if fired is not None:
+                    self.stats['starts_aborted_at_veth_creation'] += 1
+                    if self.reg[x]:
+                        self.stats['aborted_starts_with_registrations'] += 1
             if self.status[other] == 'run':
                 self.stats['start_next_to_running'] += 1
             for item in sorted(before - after):
@@ -421,8 +554,12 @@ class PairWorld:
                             if e.proto == 'udp']:
                     self.stats['udp_start_next_to_udp_holder'] += 1
             # one host <proto, ip, port> is redirected to one container only
+            # (not judged next to an aborted container that was not finished
+            # yet: its ports are free again, its rules are still there - a
+            # window the statement says nothing about)
             seen = {}
-            for item in sorted(after):
+            waiting = other in self.aborted and self.status[other] == 'run'
+            for item in sorted(() if waiting else after):
                 if item[0] == 'rule' and ':dnat:' in item[1]:
                     key = item[1].rsplit('-', 1)[0]
                     if key in seen and item in self.reg[x]:
@@ -443,9 +580,19 @@ class PairWorld:
             self.stats['finishes'] += 1
             if self.status[other] == 'run' and self.reg[other]:
                 self.stats['finish_while_other_registered'] += 1
+                if x in self.aborted and self.reg[x]:
+                    self.stats['finish_of_aborted_while_other_registered'] \
+                        += 1
             expected = before - self.reg[x]
             self.status[x] = 'done'
             for item in sorted(after - expected):
+                if x in self.aborted:
+                    self.report(
+                        'finish-left-registration-behind-after-aborted-start',
+                        '_run.run / _finish.finish:' + W.kind_of(item),
+                        ev, left=item, finish_raised=raised,
+                        failed='failed subproc newnet.create_newnet')
+                    continue
                 self.report('finish-left-registration-behind',
                             '_finish._cleanup_network:' + W.kind_of(item),
                             ev, left=item, finish_raised=raised)
@@ -483,6 +630,8 @@ class PairWorld:
         for x in ('A', 'B'):
             if self.status[x] == 'new':
                 evs.append(('start', x))
+                if not self.man[x]['shared_network']:
+                    evs.append(('abort', x))
         for x in ('A', 'B'):
             evs.append(('finish', x))
         return evs
@@ -490,6 +639,8 @@ class PairWorld:
     def canon(self):
         return (tuple(sorted(self.host.snapshot())),
                 tuple(sorted(self.status.items())),
+                tuple(sorted(x for x in self.aborted
+                             if self.status[x] == 'run')),
                 tuple(sorted(self.host.bound - self.host.prebound)),
                 tuple(sorted((k, v['vip'])
                              for k, v in self.host.net.alloc.items())))
@@ -567,6 +718,12 @@ def observe(rp):
         keys = sorted({(c, s) for c, s, _d in viol})
         vs = [{'clause': c, 'site': s, 'detail': d} for c, s, d in viol]
         return keys, repr((keys, facts)), vs
+    if rp['part'] == 'start-fault':
+        viol, facts = run_start_fault(rp['manifest'], rp['order'],
+                                      rp['fault'])
+        keys = sorted({(c, s) for c, s, _d in viol})
+        vs = [{'clause': c, 'site': s, 'detail': d} for c, s, d in viol]
+        return keys, repr((keys, facts)), vs
     if rp['part'] == 'sweep':
         viol, facts = run_single(rp['manifest'], rp['order'])
         keys = sorted({(c, s) for c, s, _d in viol})
@@ -592,7 +749,8 @@ def confirm(v):
 RULE = ('sweep: manifests whose start registered at least one rule file, '
         'endpoint spec or ip-set entry on the host; pairs: finishes of one '
         'container executed while the other container was running with '
-        'registrations of its own')
+        'registrations of its own; start faults (counted separately): starts '
+        'aborted after at least one registration was made')
 
 
 def run(ctx):
@@ -606,15 +764,17 @@ def run(ctx):
 
 
 def _run(ctx, t0):
-    chunks = sweep_chunks(ctx.quick)
+    # the fault chunks are the heaviest: hand them out first
+    chunks = []
+    nfault = len(fault_manifests(ctx.quick))
+    fstep = 4
+    for lo in range(0, nfault, fstep):
+        chunks.append(('fault', ctx.quick, lo, min(nfault, lo + fstep)))
+    chunks.extend(sweep_chunks(ctx.quick))
     npairs = len(pair_configs(ctx.quick))
     step = 4
     for lo in range(0, npairs, step):
         chunks.append(('pair', ctx.quick, lo, min(npairs, lo + step)))
-    nfault = len(fault_manifests(ctx.quick))
-    fstep = 6
-    for lo in range(0, nfault, fstep):
-        chunks.append(('fault', ctx.quick, lo, min(nfault, lo + fstep)))
     sw = boundx.sweep(chunks, worker, workers=ctx.workers,
                       time_cap=ctx.budget_s * 0.9)
     c = sw.counters
@@ -623,7 +783,13 @@ def _run(ctx, t0):
             or c.get('udp_start_next_to_udp_holder', 0) == 0 \
             or c.get('fault_aborted_attempts', 0) == 0 \
             or c.get('fault in subproc', 0) == 0 \
-            or c.get('fault in unlink', 0) == 0:
+            or c.get('fault in unlink', 0) == 0 \
+            or c.get('sfault_aborted_with_registrations', 0) == 0 \
+            or c.get('sfault_aborted_with_all_registrations', 0) == 0 \
+            or c.get('sfault in symlink', 0) == 0 \
+            or c.get('sfault in subproc', 0) == 0 \
+            or c.get('sfault in exec', 0) == 0 \
+            or c.get('finish_of_aborted_while_other_registered', 0) == 0:
         raise statex.HarnessError('vacuous run: %r' % (dict(c),))
     for k in ('with rules/dnat', 'with rules/snat', 'with rules/passthrough',
               'with endpoints/spec', 'with ipset/tm:vring-containers',
@@ -636,16 +802,20 @@ def _run(ctx, t0):
     doms = domains(ctx.quick)
     sweep_cases = sw.cases - npairs
     fault_runs = c.get('fault_runs', 0) + c.get('fault_manifests', 0)
+    sfault_runs = c.get('sfault_runs', 0) + c.get('fault_manifests', 0)
     cov = {
         'states': sweep_cases + c.get('pair_states', 0) +
-        c.get('fault_points', 0),
+        c.get('fault_points', 0) + c.get('sfault_points', 0),
         'transitions': 3 * sweep_cases + c.get('pair_transitions', 0) +
-        2 * fault_runs + c.get('fault_aborted_attempts', 0),
-        'executions': sweep_cases + c.get('pair_transitions', 0) + fault_runs,
+        2 * fault_runs + c.get('fault_aborted_attempts', 0) +
+        3 * sfault_runs,
+        'executions': sweep_cases + c.get('pair_transitions', 0) +
+        fault_runs + sfault_runs,
         'traces_validated_against_impl':
-            sweep_cases + c.get('pair_transitions', 0) + fault_runs,
+            sweep_cases + c.get('pair_transitions', 0) + fault_runs +
+            sfault_runs,
         'evaluations': sweep_cases + c.get('pair_transitions', 0) +
-        fault_runs,
+        fault_runs + sfault_runs,
         'distinct_nontrivial': sw.nontrivial,
         'rule': RULE,
         'samples': sw.samples[:6],
@@ -692,6 +862,12 @@ def _run(ctx, t0):
                 c.get('udp_start_next_to_udp_holder', 0),
             'both_finished': c.get('both_finished', 0),
             'starts_that_raised': c.get('start_raised', 0),
+            'starts_aborted_at_veth_creation':
+                c.get('starts_aborted_at_veth_creation', 0),
+            'aborted_starts_with_registrations':
+                c.get('aborted_starts_with_registrations', 0),
+            'finishes_of_an_aborted_container_while_other_registered':
+                c.get('finish_of_aborted_while_other_registered', 0),
         },
         'faults': {
             'what': 'for every manifest of the fault menu: one run counting '
@@ -707,6 +883,25 @@ def _run(ctx, t0):
             'by_kind': {k[9:]: v for k, v in sorted(c.items())
                         if k.startswith('fault in ')},
             'max_finish_attempts': MAX_FINISH_ATTEMPTS,
+        },
+        'start_faults': {
+            'what': 'for every manifest of the fault menu: one run counting '
+                    'the external steps of the real _run.run, then one run '
+                    'per step with exactly that step failing once; the '
+                    'aborted container is flagged like sproc/run.py does, '
+                    'then the real finish and finish again',
+            'manifests': c.get('fault_manifests', 0),
+            'fault_points': c.get('sfault_points', 0),
+            'runs_with_one_failed_step': c.get('sfault_runs', 0),
+            'aborted_starts': c.get('sfault_aborted_starts', 0),
+            'aborted_after_at_least_one_registration':
+                c.get('sfault_aborted_with_registrations', 0),
+            'aborted_after_all_registrations':
+                c.get('sfault_aborted_with_all_registrations', 0),
+            'failures_the_code_swallowed':
+                c.get('sfault_swallowed_by_the_code', 0),
+            'by_kind': {k[10:]: v for k, v in sorted(c.items())
+                        if k.startswith('sfault in ')},
         },
         'chunks': '%d/%d' % (sw.chunks_done, sw.chunks_total),
     }
